@@ -774,7 +774,7 @@ Section Guard.
 
   Definition late_ok (a : agent) (c : conn) (seid : N) (s0 : session) (w6 : work)
              (cp : list pdr_ie) (cf : list far_ie) (cq : list qer_ie) (up : list pdr_ie) (uf : list far_ie) (uq : list qer_ie)
-             (rp rf rq : list (acc N)) : bool :=
+             (rp rf rq : list (acc N)) (mid : bool) : bool :=
     (* an Update PDR keeps the match key: same pdrLookup keys as every rule of the same id among the session's PDRs
        (stored and just created) and the other Update PDRs of the message *)
     (let pups := upd_pdrs a c s0 seid cp cf cq up in
@@ -794,8 +794,9 @@ Section Guard.
     (* every Remove id resolves *)
     (let '(_, _, r) := mod_remove_p rp (w_p w6) (a_teids a) [] in is_some r) &&
     is_some (snd (mod_remove_f rf (w_f w6) [])) && is_some (snd (mod_remove_q rq (w_q w6) [])) &&
-    (* creations and removals do not come in the same message *)
-    ((nil_b cp && nil_b cf && nil_b cq) || (nil_b rp && nil_b rf && nil_b rq)).
+    (* creations and removals do not come in the same message - or [mid]: the rule lists between the add batch and the
+       delete batch are inside the envelope too (computed by the caller, who knows the other sessions) *)
+    ((nil_b cp && nil_b cf && nil_b cq) || (nil_b rp && nil_b rf && nil_b rq) || mid).
 End Guard.
 
 (* ------------------------------------------------------------------ Part 7: what the loops produce, on views *)
@@ -908,16 +909,19 @@ Section Step.
   Lemma forallb_in {A} (f : A -> bool) l x : forallb f l = true -> In x l -> f x = true.
   Proof. intros H Hx. apply (proj1 (forallb_forall f l) H x Hx). Qed.
 
-  Lemma mod_late_image a c seid cpf cp cf cq up uf uq rp rf rq s0 w6 a' c' o :
+  Lemma mod_late_image a c seid cpf cp cf cq up uf uq rp rf rq mid s0 w6 a' c' o :
     find_session seid (c_sessions c) = Some s0 ->
     mod_loops a c s0 seid cp cf cq up uf uq = (w6, 0%nat) ->
-    late_ok a c seid s0 w6 cp cf cq up uf uq rp rf rq = true ->
+    late_ok a c seid s0 w6 cp cf cq up uf uq rp rf rq mid = true ->
     handle_mod burst a c seid cpf cp cf cq up uf uq rp rf rq = Done (a', c', o) ->
     exists s', c_sessions c' = replace_session s' (c_sessions c) /\ s_lseid s' = s_lseid s0 /\
       a_tables a' = apply_cmds (o_cmds o) (a_tables a) /\ o_reply o = Some (RMod (new_rseid cpf s0) CAUSE_OK) /\
       (forall rest, is_image (a_tables a) (session_cmds burst s0 ++ rest) ->
          NoDup (map tg (session_cmds burst s0)) -> disjoint_from (session_cmds burst s0) rest ->
          NoDup (map tg (session_cmds burst s')) -> disjoint_from (session_cmds burst s') rest ->
+         ((nil_b cp && nil_b cf && nil_b cq) || (nil_b rp && nil_b rf && nil_b rq) = false -> mid = true ->
+          NoDup (map tg (add_cmds burst (view (w_p w6)) (view (w_f w6)) (view (w_q w6)))) /\
+                        disjoint_from (add_cmds burst (view (w_p w6)) (view (w_f w6)) (view (w_q w6))) rest) ->
          is_image (a_tables a') (session_cmds burst s' ++ rest)).
   Proof.
     intros Hf HL HG H. unfold late_ok in HG.
@@ -938,7 +942,7 @@ Section Step.
     exists (Sess (s_lseid s0) (new_rseid cpf s0) wp3 wf3 wq3).
     split; [reflexivity|]. split; [reflexivity|]. split; [cbn [a_tables o_cmds]; rewrite apply_cmds_app; reflexivity|].
     split; [reflexivity|].
-    intros rest Hi Hn0 Hd0 Hn' Hd'. cbn [a_tables]. unfold session_cmds in *. cbn [s_pdrs s_fars s_qers] in *.
+    intros rest Hi Hn0 Hd0 Hn' Hd' Hmid. cbn [a_tables]. unfold session_cmds in *. cbn [s_pdrs s_fars s_qers] in *.
     set (P0 := view (s_pdrs s0)) in *. set (F0 := view (s_fars s0)) in *. set (Q0 := view (s_qers s0)) in *.
     pose proof (remove_p_perm _ _ _ _ _ _ _ R1) as PP. pose proof (remove_f_perm _ _ _ _ _ R2) as PF. pose proof (remove_q_perm _ _ _ _ _ R3) as PQ.
     rewrite app_nil_r in PP, PF, PQ.
@@ -967,7 +971,8 @@ Section Step.
     (* the intermediate lists (after the add batch) are inside the envelope *)
     assert (NoDup (map tg (add_cmds burst (view (w_p w6)) (view (w_f w6)) (view (w_q w6)))) /\
             disjoint_from (add_cmds burst (view (w_p w6)) (view (w_f w6)) (view (w_q w6))) rest) as [Hn1 Hd1].
-    { apply orb_true_iff in G12. destruct G12 as [Gc|Gr].
+    { destruct ((nil_b cp && nil_b cf && nil_b cq) || (nil_b rp && nil_b rf && nil_b rq)) eqn:G12x; [|exact (Hmid eq_refl G12)].
+      clear G12. apply orb_true_iff in G12x. destruct G12x as [Gc|Gr].
       - apply andb_true_iff in Gc. destruct Gc as [Gc Gc3]. apply andb_true_iff in Gc. destruct Gc as [Gc1 Gc2].
         apply nil_b_spec in Gc1, Gc2, Gc3. subst cp cf cq. cbn [parse_all] in Pf, Pq. inversion Pf; subst fs. inversion Pq; subst qs.
         destruct ps; [|discriminate Lp]. rewrite !app_nil_r in *.
@@ -1203,10 +1208,10 @@ End Early.
 Section LateResult.
   Variable burst : N -> N -> N -> N.
 
-  Lemma mod_late_result a c seid cpf cp cf cq up uf uq rp rf rq s0 w6 :
+  Lemma mod_late_result a c seid cpf cp cf cq up uf uq rp rf rq mid s0 w6 :
     find_session seid (c_sessions c) = Some s0 ->
     mod_loops a c s0 seid cp cf cq up uf uq = (w6, 0%nat) ->
-    late_ok a c seid s0 w6 cp cf cq up uf uq rp rf rq = true ->
+    late_ok a c seid s0 w6 cp cf cq up uf uq rp rf rq mid = true ->
     exists wp3 g3 dp wf3 df wq3 dq,
       mod_remove_p rp (w_p w6) (a_teids a) [] = (wp3, g3, Some dp) /\
       mod_remove_f rf (w_f w6) [] = (wf3, Some df) /\
